@@ -55,6 +55,12 @@ def seq_module(ch):
     add(b'ld64', (I32,), (I64,), [('local.get', 0), ('i64.load', 0, 0)], 'load', ('i64.load', I64, 8, 0))
     add(b'st64', (I32, I64), (), [('local.get', 0), ('local.get', 1), ('i64.store', 0, 0)], 'store', ('i64.store', I64, 8, 0))
     add(b'fence', (), (), [('atomic.fence',)], 'fence', None)
+    # wait / notify without a second thread: the value comparison decides (1 = not equal, 2 = timed out at once), notify wakes nobody
+    for n, t, nb in (('memory.atomic.wait32', I32, 4), ('memory.atomic.wait64', I64, 8)):
+        off = ch.pick((0, 8, 64))
+        add(b'w%d' % nb, (I32, t), (I32,), [('local.get', 0), ('local.get', 1), ('i64.const', ch.pick((0, 1000))), (n, wasm.natural_align(nb), off)],
+            'wait', (n, t, nb, off))
+    add(b'ntf', (I32, I32), (I32,), [('local.get', 0), ('local.get', 1), ('memory.atomic.notify', 2, 0)], 'notify', ('memory.atomic.notify', I32, 4, 0))
     return m, acc
 
 
@@ -82,7 +88,15 @@ def make_seq(ch, params):
             classes['access_ends_at_memory_end'] = classes.get('access_ends_at_memory_end', 0) + 1
         bits = 64 if t == I64 else 32
         v = pools.draw_value(ch, t)
-        if kind in ('aload', 'load'):
+        if kind == 'wait':
+            addr = cell
+            base = addr
+            exp = known.get((addr + off, nb), pools.draw_value(ch, t)) if ch.below(2) else pools.draw_value(ch, t)
+            script.append(('call', 0, e, [base, exp]))
+            classes['wait_value_compare'] = classes.get('wait_value_compare', 0) + 1
+        elif kind == 'notify':
+            script.append(('call', 0, e, [cell, ch.pick((0, 1, 0xffffffff))]))
+        elif kind in ('aload', 'load'):
             script.append(('call', 0, e, [base]))
         elif kind in ('astore', 'store'):
             script.append(('call', 0, e, [base, v]))
